@@ -270,6 +270,21 @@ def report(inp):
     f.to_file(p)
     head = [l[2:] for l in open(p).read().splitlines() if l.startswith("# ")]
     os.remove(p); os.rmdir(d)
+    # header lines above the table: goodness of fit (or cost), degrees of freedom and their ratio are the ones the fit holds
+    hl = {l.split(":")[0].strip(): l.split(":", 1)[1].strip() for l in head if ":" in l and l.split(":")[0].strip() in ("chi2", "GoF", "ndf", "chi2/ndf", "GoF/ndf", "Cost")}
+    gof_ = f.goodness_of_fit
+    if gof_ is not None:
+        key = "chi2" if "chi2" in hl else "GoF"
+        if key not in hl or key + "/ndf" not in hl or "ndf" not in hl:
+            return {"got": hl, "expected": "goodness of fit, ndf and their ratio", "witness_class": "summary:header-lines-missing"}
+        r = close_to_shown(hl[key], gof_, "summary:header-gof") or (None if int(hl["ndf"]) == f.ndf else {"got": hl["ndf"], "expected": f.ndf, "witness_class": "summary:header-ndf"}) or \
+            close_to_shown(hl[key + "/ndf"], gof_ / f.ndf, "summary:header-gof/ndf")
+        if r:
+            return r
+    elif "Cost" in hl:
+        r = close_to_shown(hl["Cost"], f.cost_function_value, "summary:header-cost")
+        if r:
+            return r
     for k, nm in enumerate(names):
         row = [l for l in head if l.split() and l.split()[0] == nm]
         if not row:
@@ -300,6 +315,70 @@ def report(inp):
     pe = list(pe.values()) if isinstance(pe, dict) else list(pe)
     if not np.allclose(np.asarray(pe, float), errs, rtol=0, atol=0):
         return {"got": pe, "expected": errs.tolist(), "witness_class": "result_dict:errors"}
+
+
+def gen_multi(tier, seed):
+    for asym in (True, False):
+        for first in ("report", "read"):
+            yield {"asymmetric": asym, "first": first}
+
+
+@R.oracle("multi_fit_report_shows_the_held_numbers", gen_multi, obligation="MultiFit.report / _update_parameter_formatters")
+def multi_report(inp):
+    """MultiFit.report directly after do_fit (first = report) or after the numbers were read once (first = read): the parameter lines show what the multi-fit holds"""
+    MultiFit, XYFit_ = imp("kafe2").MultiFit, imp("kafe2").XYFit
+    x = np.array([0.5, 1.0, 1.5, 2.0, 2.5, 3.0])
+
+    def decay(x, a, tau):
+        return a * np.exp(-x / tau)
+
+    def decay_off(x, tau, c):
+        return 2.0 * np.exp(-x / tau) + c
+    f1 = XYFit_([x, np.array([2.55, 2.42, 1.61, 1.93, 1.22, 1.45])], decay); f1.add_error("y", 0.35); f1.set_parameter_values(a=3.0, tau=4.0)
+    f2 = XYFit_([x, np.array([2.31, 1.55, 1.92, 1.37, 1.58, 1.02])], decay_off); f2.add_error("y", 0.35); f2.set_parameter_values(tau=4.0, c=0.2)
+    mf = MultiFit([f1, f2])
+    mf.do_fit()
+    if inp["first"] == "read":
+        _ = mf.asymmetric_parameter_errors if inp["asymmetric"] else mf.parameter_errors
+    s_ = io.StringIO()
+    mf.report(s_, asymmetric_parameter_errors=inp["asymmetric"])
+    text = s_.getvalue()
+    names, vals, errs = list(mf.parameter_names), np.asarray(mf.parameter_values), np.asarray(mf.parameter_errors)
+    asym = np.asarray(mf.asymmetric_parameter_errors) if inp["asymmetric"] else None
+    for k, nm in enumerate(names):
+        if inp["asymmetric"]:
+            ms = re.findall(r"^\s*" + re.escape(nm) + r" = (" + NUM + r")\s*\+\s*(" + NUM + r")\s*\(up\)\s*-\s*(" + NUM + r")\s*\(down\)\s*$", text, re.M)
+            if not ms:
+                return {"got": text[-600:], "expected": nm + " = value + up - down", "witness_class": "multi-report:unparsable"}
+            for m_ in ms:          # the multi-fit's own section and the sections of the members that use the parameter
+                up, dn = abs(asym[k][1]), abs(asym[k][0])
+                r = close_to_shown(m_[1], up, "multi-report:up") or close_to_shown(m_[2], dn, "multi-report:down") or check_pair(m_[0], m_[2] if dn <= up else m_[1], vals[k], min(up, dn), 2, "multi-report:asymmetric")
+                if r:
+                    return r
+        else:
+            ms = re.findall(r"^\s*" + re.escape(nm) + r" = (" + NUM + r")\s*\+/-\s*(" + NUM + r")\s*$", text, re.M)
+            if not ms:
+                return {"got": text[-600:], "expected": nm + " = value +/- uncertainty", "witness_class": "multi-report:unparsable"}
+            for m_ in ms:
+                r = check_pair(m_[0], m_[1], vals[k], errs[k], 2, "multi-report:symmetric")
+                if r:
+                    return r
+
+
+def gen_zero(tier, seed):
+    for backend in ("scipy", "iminuit"):
+        yield {"backend": backend}
+
+
+@R.oracle("summary_of_a_parameter_at_zero", gen_zero, obligation="get_compact_representation")
+def zero_value(inp):
+    """a fitted value of exactly 0 (a parameter at a limit of 0) with a non-zero uncertainty: the fit can be saved and the summary shows 0 and the uncertainty"""
+    get_compact = imp("kafe2.tools").get_compact_representation
+    txt = get_compact(["a", "b"], np.array([0.0, 1.234]), np.array([0.12, 0.034]), np.eye(2))
+    rows = {l[2:].split()[0]: l[2:].split() for l in txt.splitlines() if l.startswith("# ") and l[2:].split() and l[2:].split()[0] in ("a", "b")}
+    if "a" not in rows or float(rows["a"][1]) != 0.0:
+        return {"got": txt, "expected": "a row for a with value 0", "witness_class": "summary:zero-value"}
+    return close_to_shown(rows["a"][2], 0.12, "summary:zero-value:uncertainty") or close_to_shown(rows["b"][2], 0.034, "summary:uncertainty")
 
 
 sys.exit(R.main())
